@@ -186,9 +186,13 @@ def h_src(ctx, T, mode, hist, hist_mode=None, other_file=False, script2=None, hi
     if hist_wide:
         # the earlier transaction went to a remote entity whose id is wider than the local one
         from spacepackets.util import UnsignedByteField
-        wide = UnsignedByteField(9, 8)
-        used.rig.table.add_config(rigs.remote_cfg(wide, max_packet_len=34, mode=mode, closure=closure))
-        hist_kw["dest_id"] = wide
+        if hist_wide == "same_entity":
+            # the SAME remote entity, addressed with a wider id field (equal value): longer PDU headers
+            hist_kw["dest_id"] = UnsignedByteField(used.ids.dst.value, 8)
+        else:
+            wide = UnsignedByteField(9, 8)
+            used.rig.table.add_config(rigs.remote_cfg(wide, max_packet_len=34, mode=mode, closure=closure))
+            hist_kw["dest_id"] = wide
     used.put(mode=hm, closure=None if hm is None else True, **hist_kw)
     o = used.sm()
     hsrc.end_if_other_property(ctx, o)
@@ -295,6 +299,11 @@ def plan(tier):
                           obligations=["history_ended_idle"]))
     specs.append(Spec("src/ack/second-transaction-after-one-to-a-wider-id-remote/T=2", "vf.harness.c11:h_src",
                       {"T": 2, "mode": "ack", "hist": "completed", "hist_wide": True, "script2": [["SM"], ["SM", "TICK"]]},
+                      twin_share=0.05, obligations=["history_ended_idle"]))
+    specs.append(Spec("src/unack/second-transaction-after-one-with-wider-id-field-to-the-same-remote/T=3",
+                      "vf.harness.c11:h_src",
+                      {"T": 3, "mode": "unack", "hist": "completed", "hist_wide": "same_entity",
+                       "script2": [["SM"], ["SM"], ["SM"]]},
                       twin_share=0.05, obligations=["history_ended_idle"]))
     for hist, script2 in (("cancelled_in_retransmission", [["NAK"], ["SM"], ["SM"]]),
                           ("cancelled_in_early_retransmission", [["SM"], ["SM"], ["SM"], ["NAK"], ["SM"]])):
